@@ -1,7 +1,7 @@
 """Unit `global_cache`: GlobalCache<R> (cachelito-core/src/global_cache.rs) under the sequential projection
 (R1: locks erased, R2: receiver splitting) with the helper functions of utils.rs it calls."""
 from extract.rules import R, R4, R5, R1_TYPES
-from contracts.units.engine_common import (COMMON, SYNC_SPEC, wf_pre, store_pre, get_ensures, incr_ensures, evict_requires, evict_ensures, insert_ensures, CFG_FRAME, insertm_requires, insertm_ensures, memloop_spec, insert_result_ensures)
+from contracts.units.engine_common import (COMMON, SYNC_SPEC, wf_pre, store_pre, get_ensures, incr_ensures, evict_requires, evict_ensures, insert_ensures, CFG_FRAME, insertm_requires, insertm_ensures, memloop_spec, insert_result_ensures, MEM_HINTS)
 from contracts.units import utils as U
 
 G = 'cachelito-core/src/global_cache.rs'
@@ -63,11 +63,10 @@ UNIT = dict(
                    ensures=[('front_evicted', 'successfully_evicted && evicted(m_in, o_in, map_write@, o@, o_in[0])')],
                    decreases='o@.len()'),
            },
-           hints=[(('before_loop', 1), 'snapshot', 'let ghost m_in = map_write@; let ghost o_in = o@;')]),
+           hints=MEM_HINTS + [(('before_loop', 1), 'snapshot', 'let ghost m_in = map_write@; let ghost o_in = o@;')]),
         fn('insert_result', impl=r"^impl<T: Clone \+ Debug \+ 'static, E: Clone \+ Debug \+ 'static> GlobalCache<Result<T, E>>$", requires=store_pre(M), ensures=insert_result_ensures(M)),
         fn('insert_result_with_memory', impl=r"MemoryEstimator,? > GlobalCache<Result<T, E>>$", impl_rules=IMPL_RULES,
-           requires=store_pre(M) + [('counters_unsaturated', 'freq_ok(old(self).%s@)' % M),
-                                 ('no_usize_overflow', 'forall|v: Result<T, E>| #[trigger] v.mem() + mem_total(old(self).%s@, old(self).order@) <= usize::MAX' % M)],
+           requires=store_pre(M) + [('counters_unsaturated', 'freq_ok(old(self).%s@)' % M)],
            ensures=[e for e in insert_result_ensures(M) if e[0] in ('cfg_frame', 'err_changes_nothing', 'post_wf', 'survivors_unchanged')]
                    + [('ok_stored', ['C09', 'C01'], '(value is Ok && final(self).%s@.contains_key(s2s(key))) ==> final(self).%s@[s2s(key)].value is Ok && cloned(value->Ok_0, final(self).%s@[s2s(key)].value->Ok_0)' % (M, M, M))]),
     ],
